@@ -98,6 +98,7 @@ def optimal(
     iitems = range(len(items))
     if isinstance(copies, Number):
         copies = {iitem: copies for iitem in iitems}
+    bins_have_weights = weights is not None
     if weights is None:
         weights = numbins*[1]
 
@@ -139,7 +140,8 @@ def optimal(
             count_item_in_bin = int(counts[iitem][ibin].x)
             for _ in range(count_item_in_bin):
                 binner.add_item_to_bin(output, items[iitem], ibin)
-    binner.sort_by_ascending_sum(output)
+    if not bins_have_weights:  # with weights, bin i must stay the bin whose sum is divided by weights[i] (the model already orders the weighted sums)
+        binner.sort_by_ascending_sum(output)
     return output
 
 
